@@ -359,6 +359,7 @@ type tokInfo struct {
 	K   int    `json:"k"`
 	V   string `json:"v"`
 	Off int    `json:"off"`
+	N   int    `json:"n"` // byte length (V may be altered by JSON when it is not valid UTF-8)
 	L   int    `json:"l"`
 	C   int    `json:"c"`
 }
@@ -395,7 +396,7 @@ func lexOne(text string, lang int) (r result) {
 	toks, rec, err := tlast.VerifLex(text, opts)
 	r.Toks = []tokInfo{}
 	for _, t := range toks {
-		r.Toks = append(r.Toks, tokInfo{K: t.Kind, V: t.Val, Off: t.Off, L: t.Line, C: t.Col})
+		r.Toks = append(r.Toks, tokInfo{K: t.Kind, V: t.Val, Off: t.Off, N: len(t.Val), L: t.Line, C: t.Col})
 	}
 	r.Recombined = rec == text
 	r.OK = err == nil
